@@ -254,6 +254,8 @@ fn link(o: &Ontology, m: &str, tids: &[u32], table: &[u32], out: &mut Vec<String
     // (lhs, rhs, distance, size) through the three public iterators
     let cl: Vec<(usize, usize, f32, usize)> = linkage.cluster().map(|c| (c.lhs(), c.rhs(), c.distance(), c.len())).collect();
     let cl2: Vec<(usize, usize, u32, usize)> = (&linkage).into_iter().map(|c| (c.lhs(), c.rhs(), c.distance().to_bits(), c.len())).collect();
+    // ExactSizeIterator: len() of the borrowed iterators
+    let lens = [linkage.cluster().len(), (&linkage).into_iter().len()];
     // back-to-front iteration yields the same merges in reverse
     let rev: Vec<(usize, usize, u32, usize)> = linkage.cluster().rev().map(|c| (c.lhs(), c.rhs(), c.distance().to_bits(), c.len())).collect();
     let mut both_ends: Vec<(usize, usize, u32, usize)> = vec![];
@@ -293,6 +295,9 @@ fn link(o: &Ontology, m: &str, tids: &[u32], table: &[u32], out: &mut Vec<String
     let as_bits: Vec<(usize, usize, u32, usize)> = cl.iter().map(|c| (c.0, c.1, c.2.to_bits(), c.3)).collect();
     if as_bits != cl2 || as_bits != cl3 {
         fails.push("iterator-variants-disagree".to_string());
+    }
+    if lens.iter().any(|l| *l != cl.len()) {
+        fails.push(format!("len()-of-the-iterators {lens:?} merges={}", cl.len()));
     }
     let mut fwd_rev = as_bits.clone();
     fwd_rev.reverse();
